@@ -30,9 +30,20 @@ to the hand model `interp` by `Lemmas/InterpEquiv.lean`.  Additional Rust constr
 scheme (offset register threaded, fuel, one function per loop, continuation-passing translation of control flow) and
 the idiom table are spelled out in `INTERP_HEADER` below, which is copied into the generated file.
 
-Usage: `python3 rs2lean.py` writes Generated/Code.lean and Generated/InterpCode.lean (only if the content changed) and
-prints nothing on success.  `generate()` / `generate_interp()` return the texts.  Sources: `$VERIF_SRC`, else
-`$VERIF_REPO/jmespath/src`, else /repo/jmespath/src.  (`$RS2LEAN_INTERP_OUT` redirects the second output; for experiments.)
+Third target (`generate_valid()`, class `VGen`): `ArgumentType::is_valid`, `impl Display for ArgumentType` / `JmespathType`,
+`Signature::validate_arity` / `validate_arg` / `validate` (both `for (k, v) in args.iter().enumerate()` loops, the checked
+`self.inputs[k]`), the `Variable::as_*` / `is_*` accessors, `float_eq`, `impl PartialEq for Variable` (`eq`) and `impl Ord for
+Variable` (`cmp`) -> `lean/JmesVerif/Generated/ValidCode.lean` (namespace `JmesVerif.Generated.ValidCode`), proved equal to the
+hand model (`ArgT.isValid`, `ArgT.name`, `JType.name`, `Sig.validate`, `floatEq`, `Val.beq`, `Val.cmp`) by
+`Lemmas/ValidEquiv.lean`.  Additional constructs: `use` inside a body, tuple expressions under `match` / `if let`, match guards
+compiled per constructor, `matches!`, `write!` with `{}`, struct expressions of `RuntimeError`, closures under
+`.all/.any/.map/.zip(..).all/.map_or`, `f64` arithmetic on the soft-float model.  Scheme and idiom table: `VALID_HEADER` below
+(copied into the generated file).
+
+Usage: `python3 rs2lean.py` writes Generated/Code.lean, Generated/InterpCode.lean and Generated/ValidCode.lean (only if the
+content changed) and prints nothing on success.  `generate()` / `generate_interp()` / `generate_valid()` return the texts.
+Sources: `$VERIF_SRC`, else `$VERIF_REPO/jmespath/src`, else /repo/jmespath/src.  (`$RS2LEAN_INTERP_OUT` / `$RS2LEAN_VALID_OUT`
+redirect the second / third output; for experiments.)
 """
 import hashlib
 import os
@@ -531,6 +542,13 @@ class Parser:
             if self.eat(";"):
                 continue
             t = self.peek()
+            if self.at("use") and self.peek(1).kind == "id":
+                while not self.at(";"):          # `use path::to::names;` inside a body: name resolution only
+                    if self.peek().kind == "eof":
+                        fail("unterminated `use`", t, self.sf.name)
+                    self.i += 1
+                self.i += 1
+                continue
             if self.eat("let"):
                 pat = self.pattern()
                 ty = self.ty() if self.eat(":") else None
@@ -587,7 +605,13 @@ class Parser:
                 return ("unit",)
             e = self.expr()
             if self.at(","):
-                fail("tuple expressions are outside the subset", self.peek(), self.sf.name)
+                items = [e]
+                while self.eat(","):
+                    if self.at(")"):
+                        break
+                    items.append(self.expr())
+                self.expect(")")
+                return ("tuple", items, t.line)
             self.expect(")")
             return e
         if self.at("{"):
@@ -3115,6 +3139,1439 @@ def generate_interp():
     return "\n\n".join(out) + "\n"
 
 
+# ----------------------------------------------------------------------------------------------
+# Third target: signature validation, the type names, equality and ordering of `Variable`  ->  Generated/ValidCode.lean
+# ----------------------------------------------------------------------------------------------
+OUT_VALID = os.path.join(os.path.dirname(OUT), "ValidCode.lean")
+
+VALID_HEADER = r"""/- GENERATED by tools/rs2lean.py from functions.rs / variable.rs of /repo/jmespath/src — do not edit.
+
+Translated bodies: the `Variable::as_*` / `is_*` accessors, `impl Display for JmespathType`, `ArgumentType::is_valid`,
+`impl Display for ArgumentType`, `Signature::validate_arity` / `validate_arg` / `validate`, `float_eq`,
+`impl PartialEq for Variable` (`eq`) and `impl Ord for Variable` (`cmp`).  `Lemmas/ValidEquiv.lean` proves each one equal
+to the hand model (`ArgT.isValid`, `ArgT.name`, `JType.name`, `Sig.validate`, `floatEq`, `Val.beq`, `Val.cmp`).
+
+Translation scheme (trusted):
+  * types: `Rcvar`/`Variable` ↦ `Val`, `ArgumentType` ↦ `ArgT`, `JmespathType` ↦ `JType`, `Ordering` ↦ `Ordering`,
+    `serde_json::Number` ↦ `Num`, `f64` ↦ `F64` (the soft-float model), `usize` ↦ `Nat`, `String`/`&str` ↦ `String`,
+    `Vec<T>`/`&[T]` ↦ `List T`, `BTreeMap<String, T>` ↦ `List (String × T)` (key order), `Option<T>` ↦ `Option T`,
+    `Box<T>`/`&T` ↦ `T`; constructors and patterns of the enums map to the model's constructors by a table that is
+    checked against the `enum` declarations of the source (variant names, arities, payload types).
+  * `&self` of `Signature` is the two parameters `self_inputs`, `self_variadic` (the struct is re-read from the source).
+  * a function returning `Result<T, JmespathError>` returns `Except Fail T`: `Err(JmespathError::from_ctx(ctx, r))`
+    is `.error (.err r)` (the `ctx: &Context` parameter is immutable and only feeds `from_ctx`: it is dropped, `toExcept off`
+    puts `ctx.offset` back), `e?` propagates, a checked `xs[i]` that is out of bounds is `.error (.fault .outOfBounds)`,
+    a `usize` `+`/`-` that overflows is `.error (.fault .overflow)`.  Nothing is totalised silently.
+  * `match` with guards is compiled per constructor: the arms that can match the constructor, in source order, become an
+    `if guard then body else next` chain (Rust's first-match semantics).
+  * `for (k, v) in xs.iter().enumerate() { .. }` / `for v in xs { .. }` become structural recursions over the list
+    (one function per loop; the counter starts at 0 and is incremented by 1: a slice has fewer than 2^63 elements).
+  * `.iter().all(|x| b)` / `.any(|x| b)` / `.map(|x| b)` are `List.all` / `List.any` / `List.map`; when `b` calls the
+    function being defined they are spelled as the equivalent structural recursion inside the `mutual` block (Lean's
+    termination checker needs that); `.iter().zip(ys.iter()).all(|(x, y)| b)` likewise (stops at the shorter list).
+  * `fn fmt(&self, fmt: &mut Formatter) -> fmt::Result` whose every path ends in one `write!(fmt, "..{}..", args)` is the
+    function returning the text written; `x.to_string()` is that function (`impl Display` ⇒ `ToString`).
+  * API idioms, fixed table:
+      x.clone(), x.to_owned(), &x, *x, x.as_ref(), xs.iter(), it.cloned(), it.collect::<Vec<_>>()  ↦  x
+      v.get_type() ↦ Val.type v (tied to the source by `gen_type_eq`, Lemmas/CodeEquiv)
+      n.as_f64() (serde_json::Number, no arbitrary_precision) ↦ some (Num.toF64 n)
+      o.is_some() / is_none() / unwrap_or(d) / or(o') ↦ Option.isSome / isNone / getD / or;  o.map_or(d, |x| b) ↦ match
+      xs.len() ↦ List.length;  xs.get(i) ↦ xs[i]?;  xs[i] ↦ indexChecked xs i;  strs.join(s) ↦ String.intercalate s strs
+      f64:  a + b, a - b, a * b, a / b ↦ F64.add / sub / mul / div (one IEEE rounding each);  a == b ↦ F64.feq;
+            a < b ↦ F64.flt a b;  a > b ↦ F64.flt b a;  a <= b ↦ F64.fle a b;  a >= b ↦ F64.fle b a;
+            a.abs() ↦ F64.abs;  a.min(b) ↦ F64.fmin;  a.is_normal() ↦ F64.isNormal;  a.is_nan() ↦ F64.isNaN;
+            f64::EPSILON / MIN_POSITIVE / MAX ↦ F64.epsilon / minPositive / maxVal;
+            a.partial_cmp(&b) ↦ f64PartialCmp a b (prelude below)
+      s.cmp(t) on strings ↦ compare s t (code-point order = UTF-8 byte order)
+      `==` / `!=`: on `usize` the proposition; on `bool`, `String`, `JmespathType`, `Ordering` the decidable equality;
+            on `Option<T>` the derived one (`Some(x) == Some(y)` iff `x == y`, `None == None`, otherwise false);
+            on `Vec<Rcvar>` / `BTreeMap<String, Rcvar>` std's (same length, pairwise `==`; for maps keys and values) —
+            `eq_vec` / `eq_map`, emitted from a fixed template inside the `mutual` block of `Variable::eq` because the
+            element `==` *is* `Variable::eq`; on `Rcvar` / `Variable` the translated `variable_eq`;
+            on `Ast` the derived `PartialEq` ↦ the model's `Ast.beq` (the derived impl has no body to translate)
+      ErrorReason::Runtime(r) ↦ r;  RuntimeError::InvalidType { .. } / NotEnoughArguments { .. } / TooManyArguments { .. }
+            ↦ RtErr.invalidType / notEnough / tooMany (fields by name; the enum is re-read from errors.rs)
+    Anything outside the table makes the translator exit 1 (broken tie).
+-/
+import JmesVerif.Generated.Code
+import JmesVerif.Model.Interp
+set_option linter.unusedVariables false
+namespace JmesVerif.Generated.ValidCode
+open JmesVerif
+open JmesVerif.Generated.Code (indexChecked usizeAdd usizeSub)
+
+/-! ### fixed prelude: the meaning of the Rust primitives and API idioms (not generated from the source) -/
+
+/-- why a `Result<_, JmespathError>` function did not return `Ok`: a panic of the checked primitives, or
+`Err(JmespathError::from_ctx(ctx, ErrorReason::Runtime(e)))` -/
+inductive Fail
+  | fault (f : Fault)
+  | err (e : RtErr)
+  deriving DecidableEq, Repr
+
+/-- reading of a translated `Result` under a `ctx` whose `offset` is `off` (a panic is the model's `.panic`) -/
+def toExcept {α : Type} (off : Nat) : Except Fail α → Except EvalErr α
+  | .ok a => .ok a
+  | .error (.err e) => .error (.runtime e off)
+  | .error (.fault _) => .error (.panic "index out of bounds: self.inputs[k]")
+
+/-- `a.partial_cmp(&b)` on `f64` -/
+def f64PartialCmp (a b : F64) : Option Ordering :=
+  if F64.flt a b then some .lt else if F64.flt b a then some .gt else if F64.feq a b then some .eq else none
+"""
+
+# enum tables: type tag -> (Rust enum name, {variant: (model constructor, payload type tag or None)})
+V_ENUMS = {
+    "val": ("Variable", {"Null": ("null", None), "String": ("str", "string"), "Bool": ("bool", "bool"),
+                         "Number": ("num", "number"), "Array": ("arr", ("list", "val")),
+                         "Object": ("obj", ("map", "val")), "Expref": ("expref", "ast")}),
+    "argt": ("ArgumentType", {"Any": ("any", None), "Null": ("null", None), "String": ("string", None),
+                              "Number": ("number", None), "Bool": ("bool", None), "Object": ("object", None),
+                              "Array": ("array", None), "Expref": ("expref", None),
+                              "TypedArray": ("typedArray", "argt"), "Union": ("union", ("list", "argt"))}),
+    "jtype": ("JmespathType", {"Null": ("null", None), "String": ("string", None), "Number": ("number", None),
+                               "Boolean": ("boolean", None), "Array": ("array", None), "Object": ("object", None),
+                               "Expref": ("expref", None)}),
+    "ordering": ("Ordering", {"Less": ("lt", None), "Equal": ("eq", None), "Greater": ("gt", None)}),
+}
+V_LEAN_ENUM = {"val": "Val", "argt": "ArgT", "jtype": "JType", "ordering": "Ordering"}
+V_RTERR = {"InvalidType": ("invalidType", [("expected", "string"), ("actual", "string"), ("position", "usize")]),
+           "NotEnoughArguments": ("notEnough", [("expected", "usize"), ("actual", "usize")]),
+           "TooManyArguments": ("tooMany", [("expected", "usize"), ("actual", "usize")])}
+V_ITY = {"val": "Val", "ast": "Ast", "string": "String", "usize": "Nat", "bool": "Bool", "unit": "Unit",
+         "number": "Num", "argt": "ArgT", "jtype": "JType", "ordering": "Ordering", "f64": "F64", "char": "Char",
+         "rterr": "RtErr", "reason": "RtErr", "jerr": "Fail"}
+V_F64_CONST = {"EPSILON": "F64.epsilon", "MIN_POSITIVE": "F64.minPositive", "MAX": "F64.maxVal"}
+V_DISPLAY = {"argt": "ArgumentType", "jtype": "JmespathType"}
+
+
+def vatom(s):
+    s = s.strip()
+    if len(s) >= 2 and s[0] == '"' and s[-1] == '"' and '"' not in s[1:-1]:
+        return s
+    if len(s) >= 3 and s[0] == "'" and s[-1] == "'":
+        return s
+    return atom(s)
+
+
+def vty(t):
+    t = resolve(t)
+    if isinstance(t, TyVar):
+        return None
+    if isinstance(t, tuple):
+        if t[0] in ("list", "iter"):
+            inner = vty(t[1])
+            return None if inner is None else f"List {vatom(inner)}"
+        if t[0] == "map":
+            return f"List (String × {vty(t[1])})"
+        if t[0] == "opt":
+            inner = vty(t[1])
+            return None if inner is None else f"Option {vatom(inner)}"
+        if t[0] == "result":
+            return f"Except Fail {vatom(vty(t[1]))}"
+    if t in V_ITY:
+        return V_ITY[t]
+    raise TieError(f"no Lean type for {t!r}")
+
+
+def vrender(c, ind):
+    pad = "  " * ind
+    k = c[0]
+    if k == "ret":
+        return [pad + c[1]]
+    if k == "let":
+        t = vty(c[2]) if c[2] is not None else None
+        return [pad + f"let {c[1]}" + (f" : {t}" if t else "") + f" := {c[3]}"] + vrender(c[4], ind)
+    if k == "match":
+        out = [pad + f"match {c[1]} with"]
+        for p, b in c[2]:
+            if b[0] == "ret" and "\n" not in b[1] and len(b[1]) + len(p) < 90:
+                out.append(pad + f"| {p} => {b[1]}")
+                continue
+            out.append(pad + f"| {p} =>")
+            out += vrender(b, ind + 1)
+        return out
+    if k == "if":
+        return [pad + f"if {c[1]} then"] + vrender(c[2], ind + 1) + [pad + "else"] + vrender(c[3], ind + 1)
+    raise AssertionError(k)
+
+
+def vmentions(c, name):
+    import re as _re
+    return _re.search(r"(?<![A-Za-z0-9_'.])" + _re.escape(name) + r"(?![A-Za-z0-9_'])", "\n".join(vrender(c, 0))) is not None
+
+
+def vsimplify(c):
+    """peepholes: drop a pure `let` nobody reads; `match m with | .error e => .error e | .ok t => .ok t` is `m`"""
+    k = c[0]
+    if k == "ret":
+        return c
+    if k == "let":
+        rest = vsimplify(c[4])
+        if not vmentions(rest, c[1]):
+            return rest
+        return ("let", c[1], c[2], c[3], rest)
+    if k == "if":
+        return ("if", c[1], vsimplify(c[2]), vsimplify(c[3]))
+    if k == "match":
+        arms = [(p, vsimplify(b)) for p, b in c[2]]
+        if len(arms) == 2 and arms[0][0].startswith(".error ") and arms[0][1] == ("ret", arms[0][0]) and \
+                arms[1][0].startswith(".ok ") and arms[1][1] == ("ret", arms[1][0]):
+            return ("ret", c[1])
+        return ("match", c[1], arms)
+    raise AssertionError(k)
+
+
+class TokSource:
+    """a token list (the inside of a macro call) presented to `Parser` like a file"""
+
+    def __init__(self, sf, toks, line):
+        self.name = sf.name
+        self.toks = list(toks) + [Tok("eof", "", line)]
+        self.arm_lines = {}
+
+    def match_close(self, i):
+        return SourceFile.match_close(self, i)
+
+
+class VGen:
+    """translator of the third target; one instance for the whole file (the functions call each other)"""
+
+    def __init__(self, ctx):
+        self.ctx = ctx
+        self.fns = {}          # key (selfty or None, rust name) -> info
+        self.tmp = 0
+        self.cur = None
+        self.taken = set()
+        self.group = set()
+        self.rec_used = False
+        self.auxes = []        # texts of the auxiliary recursions of the current mutual group
+        self.loops = []        # texts of the loop functions of the current function
+        self.need_eq_templates = False
+        self.sig_fields = None
+
+    # -- helpers
+    def err(self, msg, line=None):
+        where = f"{self.cur['sf'].name}:{line}" if line else self.cur["sf"].name
+        raise TieError(f"fn {self.cur['rust']} ({where}): {msg}")
+
+    def fresh(self, base="t"):
+        while True:
+            self.tmp += 1
+            n = f"{base}{self.tmp}"
+            if n not in self.taken:
+                self.taken.add(n)
+                return n
+
+    def lname(self, rust):
+        reserved = {"e", "f", "rest", "indexChecked", "usizeAdd", "usizeSub", "toExcept", "f64PartialCmp", "eq_vec", "eq_map"}
+        reserved |= {i["lean"] for i in self.fns.values()}
+        return rust + "_" if rust in LEAN_KEYWORDS or rust in reserved else rust
+
+    def bind_name(self, name, env):
+        ln = self.lname(name)
+        if name in env or ln in {v[0] for v in env.values()}:
+            return self.fresh(ln + "_")
+        self.taken.add(ln)
+        return ln
+
+    @staticmethod
+    def scoped(k, outer, names):
+        def k2(t, ty, env2):
+            env3 = dict(env2)
+            for n in names:
+                if n in outer:
+                    env3[n] = outer[n]
+                else:
+                    env3.pop(n, None)
+            return k(t, ty, env3)
+        return k2
+
+    def rty(self, t, selfty=None):
+        """Rust type -> type tag"""
+        if t[0] == "ref":
+            return self.rty(t[1], selfty)
+        if t[0] == "slice":
+            return ("list", self.rty(t[1], selfty))
+        if t[0] == "unit":
+            return "unit"
+        if t[0] == "path":
+            n, a = t[1], t[2]
+            if n in ("Rcvar", "Variable"):
+                return "val"
+            if n == "Self" and selfty is not None:
+                return selfty
+            simple = {"Ast": "ast", "ArgumentType": "argt", "JmespathType": "jtype", "Ordering": "ordering", "f64": "f64",
+                      "usize": "usize", "bool": "bool", "String": "string", "str": "string", "Number": "number",
+                      "Context": "ctx", "Formatter": "fmtr", "JmespathError": "jerr", "Error": "fmterr", "char": "char"}
+            if n in simple and not (a and n not in ("Context", "Formatter")):
+                return simple[n]
+            if n in ("Box", "Rc", "Arc") and len(a) == 1:
+                return self.rty(a[0], selfty)
+            if n == "Vec" and len(a) == 1:
+                return ("list", self.rty(a[0], selfty))
+            if n == "Option" and len(a) == 1:
+                return ("opt", self.rty(a[0], selfty))
+            if n == "Result" and len(a) == 2:
+                return ("result", self.rty(a[0], selfty), self.rty(a[1], selfty))
+            if n == "BTreeMap" and len(a) == 2 and self.rty(a[0], selfty) == "string":
+                return ("map", self.rty(a[1], selfty))
+        raise TieError(f"type {t!r} is outside the subset of the validation target")
+
+    # -- registration
+    def register(self, sf, impl, rust, lean, selfty, doc, free_only=False):
+        fn = Parser(sf, sf.find_fn(impl, rust, free_only)).fn()
+        self.ctx.add_region(sf, fn["toks"][0], fn["toks"][1])
+        params, drop = [], []
+        has_self = False
+        for p, t in fn["params"]:
+            if p == "self":
+                has_self = True
+                continue
+            ty = self.rty(t, selfty)
+            if ty in ("ctx", "fmtr"):
+                drop.append((p, ty))
+            else:
+                params.append((p, ty))
+        ret = self.rty(fn["ret"], selfty)
+        kind = "pure"
+        if isinstance(ret, tuple) and ret[0] == "result":
+            if ret[2] == "jerr":
+                kind, ret = "result", ("result", ret[1])
+            elif ret[2] == "fmterr" and ret[1] == "unit" and any(ty == "fmtr" for _, ty in drop):
+                kind, ret = "fmt", "string"
+            else:
+                raise TieError(f"fn {rust} ({sf.name}): return type {ret} is outside the subset")
+        elif any(ty == "fmtr" for _, ty in drop):
+            raise TieError(f"fn {rust} ({sf.name}): a `Formatter` parameter in a function that does not return `fmt::Result`")
+        if has_self and selfty is None:
+            raise TieError(f"fn {rust} ({sf.name}): unexpected `self`")
+        uses_self = has_self and "self" in used_names(fn["body"])
+        info = {"key": (selfty if has_self else None, rust), "sf": sf, "fn": fn, "rust": rust, "lean": lean,
+                "selfty": selfty if has_self else None, "params": params, "drop": drop, "ret": ret, "kind": kind,
+                "uses_self": uses_self, "doc": doc}
+        if info["key"] in self.fns:
+            raise TieError(f"two functions `{rust}` on {selfty}")
+        self.fns[info["key"]] = info
+        return info
+
+    def self_params(self, info):
+        """[(lean name, type tag)] standing for `self`"""
+        if info["selfty"] is None:
+            return []
+        if info["selfty"] == "sig":
+            return [("self_inputs", ("list", "argt")), ("self_variadic", ("opt", "argt"))] if info["uses_self"] else []
+        return [("self", info["selfty"])]
+
+    def call_term(self, info, self_terms, arg_terms):
+        if info["key"] in self.group:
+            self.rec_used = True
+        return " ".join([info["lean"]] + [vatom(t) for t in self_terms] + [vatom(t) for t in arg_terms])
+
+    # -- effects
+    def call_split(self, callterm, okty, env, k):
+        e, t = self.fresh("e"), self.fresh()
+        return ("match", callterm, [(f".error {e}", k(e, ("res_err",), env)), (f".ok {t}", k(t, ("res_ok", okty), env))])
+
+    def lift_fault(self, mterm, ty, env, k, line):
+        if self.cur["kind"] != "result":
+            self.err("a checked operation (indexing, `usize` arithmetic) in a function that does not return `Result<_, JmespathError>` "
+                     "is outside the subset", line)
+        f, t = self.fresh("f"), self.fresh()
+        return ("match", mterm, [(f".error {f}", ("ret", f".error (.fault {f})")), (f".ok {t}", k(t, ty, env))])
+
+    def pure(self, e, env, exp=None):
+        box = []
+
+        def k(t, ty, env2):
+            box.append((t, ty))
+            return ("ret", "%HOLE%")
+        c = self.E(e, env, k, exp)
+        if c != ("ret", "%HOLE%") or len(box) != 1:
+            self.err("an operand has an effect (`?`, a checked operation, control flow with a statement) where the embedding needs "
+                     "a pure expression", e[-1] if isinstance(e[-1], int) else None)
+        return box[0]
+
+    def E_list(self, exprs, exps, env, k):
+        """evaluate in order; k([(term, ty)], env)"""
+        def go(i, acc, env2):
+            if i == len(exprs):
+                return k(acc, env2)
+            return self.E(exprs[i], env2, lambda t, ty, env3: go(i + 1, acc + [(t, ty)], env3), exps[i])
+        return go(0, [], env)
+
+    @staticmethod
+    def as_bool(t, ty):
+        return (f"decide {vatom(t)}", "bool") if ty == "prop" else (t, ty)
+
+    # -- expressions
+    def E(self, e, env, k, exp=None):
+        kind = e[0]
+        if kind == "path":
+            return self.E_path(e, env, k, exp)
+        if kind == "bool":
+            return k("true" if e[1] else "false", "bool", env)
+        if kind == "int":
+            ty = e[2] or (resolve(exp) if resolve(exp) == "usize" else None)
+            if ty != "usize":
+                self.err("cannot determine the type of an integer literal (only `usize` is in the subset)", e[3])
+            if e[1] > 18446744073709551615:
+                self.err("integer literal out of range", e[3])
+            return k(str(e[1]), "usize", env)
+        if kind == "unit":
+            return k("()", "unit", env)
+        if kind == "lit":
+            if e[1].startswith('"') and "\\" not in e[1] and "\n" not in e[1]:
+                return k(e[1], "string", env)
+            if e[1].startswith("'") and e[1] in ("'\\n'", "'\\t'", "'\\r'") or (len(e[1]) == 3 and e[1][1] not in "\\'"):
+                return k(e[1], "char", env)
+            self.err(f"literal {e[1]} is outside the subset", e[2])
+        if kind == "unary":
+            op = e[1]
+            if op in ("&", "*"):
+                return self.E(e[2], env, k, exp)
+            if op == "!":
+                def kn(t, ty, env2):
+                    if ty == "bool":
+                        return k(f"!{vatom(t)}", "bool", env2)
+                    if ty == "prop":
+                        return k(f"¬ {vatom(t)}", "prop", env2)
+                    self.err("`!` on a non-boolean", e[3])
+                return self.E(e[2], env, kn, "bool")
+            self.err(f"unary `{op}` is outside the subset of the validation target", e[3])
+        if kind == "binary":
+            return self.E_binary(e, env, k)
+        if kind == "try":
+            def kt(t, ty, env2):
+                if ty == ("res_err",):
+                    return ("ret", f".error {vatom(t)}")
+                if isinstance(ty, tuple) and ty[0] == "res_ok":
+                    return k(t, ty[1], env2)
+                self.err(f"`?` applied to something that is not a `Result` ({ty})", e[2])
+            if self.cur["kind"] != "result":
+                self.err("`?` in a function that does not return `Result<_, JmespathError>`", e[2])
+            return self.E(e[1], env, kt)
+        if kind == "call":
+            return self.E_call(e, env, k, exp)
+        if kind == "mcall":
+            return self.E_mcall(e, env, k, exp)
+        if kind == "field":
+            return self.E_field(e, env, k)
+        if kind == "macro":
+            return self.E_macro(e, env, k, exp)
+        if kind == "assign":
+            return self.E_assign(e, env, k)
+        if kind == "block":
+            return self.B(e, env, k, exp)
+        if kind == "if":
+            return self.E_if(e, env, k, exp)
+        if kind == "match":
+            return self.E_match(e, env, k, exp)
+        if kind == "for":
+            return self.E_for(e, env, k)
+        if kind == "return":
+            if e[1] is None:
+                self.err("`return;` in a function returning a value", e[2])
+            return self.E(e[1], env, self.retk, self.cur["ret_exp"])
+        if kind == "struct":
+            return self.E_struct(e, env, k)
+        if kind == "index":
+            return self.E_index(e, env, k)
+        self.err(f"expression kind `{kind}` is outside the subset of the validation target",
+                 e[-1] if isinstance(e[-1], int) else None)
+
+    def E_path(self, e, env, k, exp):
+        segs = e[1]
+        if len(segs) == 1:
+            n = segs[0]
+            if n in env:
+                return k(env[n][0], env[n][1], env)
+            if n == "None":
+                want = resolve(exp)
+                if isinstance(want, tuple) and want[0] == "opt":
+                    return k("none", want, env)
+                return k("none", ("opt", TyVar()), env)
+            if n in [p for p, _ in self.cur["drop"]]:
+                return k("%" + n, dict(self.cur["drop"])[n], env)
+            want = resolve(exp)
+            if want in V_ENUMS and n in V_ENUMS[want][1] and V_ENUMS[want][1][n][1] is None:
+                return k(f"{V_LEAN_ENUM[want]}.{V_ENUMS[want][1][n][0]}", want, env)
+            self.err(f"unknown name `{n}`", e[2])
+        if len(segs) == 2:
+            for tag, (ename, table) in V_ENUMS.items():
+                if segs[0] == ename and segs[1] in table and table[segs[1]][1] is None:
+                    return k(f"{V_LEAN_ENUM[tag]}.{table[segs[1]][0]}", tag, env)
+            if segs[0] == "f64" and segs[1] in V_F64_CONST:
+                return k(V_F64_CONST[segs[1]], "f64", env)
+        if len(segs) == 3 and segs[0] == "std" and segs[1] == "f64" and segs[2] in V_F64_CONST:
+            return k(V_F64_CONST[segs[2]], "f64", env)
+        self.err(f"path `{'::'.join(segs)}` is outside the idiom table", e[2])
+
+    def eq_term(self, lt, rt_, ty, line, depth=0):
+        """`lt == rt_` at type ty -> (term, "bool" | "prop")"""
+        ty = resolve(ty)
+        if ty == "usize":
+            return f"{vatom(lt)} = {vatom(rt_)}", "prop"
+        if ty in ("bool", "string", "jtype", "ordering", "char"):
+            return f"{vatom(lt)} == {vatom(rt_)}", "bool"
+        if ty == "unit":
+            return "true", "bool"
+        if ty == "f64":
+            return f"F64.feq {vatom(lt)} {vatom(rt_)}", "bool"
+        if ty == "ast":
+            return f"Ast.beq {vatom(lt)} {vatom(rt_)}", "bool"
+        if ty == "val":
+            info = self.fns.get(("val", "eq"))
+            if info is None:
+                self.err("`==` on `Variable` without a translated `impl PartialEq for Variable`", line)
+            return self.call_term(info, [lt], [rt_]), "bool"
+        if ty in (("list", "val"), ("map", "val")):
+            if ("val", "eq") not in self.group:
+                self.err("`==` on a collection of `Rcvar` outside `impl PartialEq for Variable` is outside the subset", line)
+            self.rec_used = True
+            self.need_eq_templates = True
+            return f"{'eq_vec' if ty[0] == 'list' else 'eq_map'} {vatom(lt)} {vatom(rt_)}", "bool"
+        if isinstance(ty, tuple) and ty[0] == "opt":
+            x, y = self.fresh("x"), self.fresh("y")
+            inner, ity_ = self.eq_term(x, y, ty[1], line, depth + 1)
+            inner, _ = self.as_bool(inner, ity_)
+            return (f"(match {lt}, {rt_} with | some {x}, some {y} => {inner} | none, none => true | _, _ => false)", "bool")
+        self.err(f"`==` on {ty} is outside the idiom table", line)
+
+    def E_binary(self, e, env, k):
+        op, l, r, line = e[1], e[2], e[3], e[4]
+        if op in ("==", "!="):
+            # `Some(x) == e` / `e == Some(x)`: the derived equality of `Option`, with the known side opened
+            for a, b in ((l, r), (r, l)):
+                if a[0] == "call" and a[1][0] == "path" and a[1][1] == ["Some"] and len(a[2]) == 1:
+                    xt, xty = self.pure(a[2][0], env)
+                    ot, oty = self.pure(b, env, ("opt", xty))
+                    oty = resolve(oty)
+                    if not (isinstance(oty, tuple) and oty[0] == "opt" and unify(oty[1], xty)):
+                        self.err(f"`==` between Option<{xty}> and {oty}", line)
+                    y = self.fresh("y")
+                    inner, ity_ = self.eq_term(xt, y, xty, line) if a is l else self.eq_term(y, xt, xty, line)
+                    inner, _ = self.as_bool(inner, ity_)
+                    t = f"(match {ot} with | some {y} => {inner} | none => false)"
+                    return k(t if op == "==" else f"!{t}", "bool", env)
+        lt, lty = self.pure(l, env, "usize" if r[0] != "int" else None) if l[0] != "int" else (None, None)
+        if l[0] == "int":
+            rt_, rty_ = self.pure(r, env)
+            lt, lty = self.pure(l, env, rty_)
+        else:
+            rt_, rty_ = self.pure(r, env, lty)
+        lty, rty_ = resolve(lty), resolve(rty_)
+        if op in ("&&", "||"):
+            if lty == "bool" and rty_ == "bool":
+                return k(f"{vatom(lt)} {op} {vatom(rt_)}", "bool", env)
+            if lty in ("bool", "prop") and rty_ in ("bool", "prop"):
+                a = lt if lty == "prop" else f"{vatom(lt)} = true"
+                b = rt_ if rty_ == "prop" else f"{vatom(rt_)} = true"
+                return k(f"{vatom(a)} {'∧' if op == '&&' else '∨'} {vatom(b)}", "prop", env)
+            self.err(f"`{op}` between {lty} and {rty_}", line)
+        if not unify(lty, rty_):
+            self.err(f"`{op}` between {lty} and {rty_} is outside the subset", line)
+        if op in ("==", "!="):
+            t, ty = self.eq_term(lt, rt_, lty, line)
+            if op == "!=":
+                t, ty = (f"¬ {vatom(t)}", "prop") if ty == "prop" else (f"!{vatom(t)}", "bool")
+            return k(t, ty, env)
+        if op in ("<", ">", "<=", ">="):
+            if lty == "usize":
+                sym = {"<": "<", ">": ">", "<=": "≤", ">=": "≥"}[op]
+                return k(f"{vatom(lt)} {sym} {vatom(rt_)}", "prop", env)
+            if lty == "f64":
+                f, a, b = {"<": ("F64.flt", lt, rt_), ">": ("F64.flt", rt_, lt), "<=": ("F64.fle", lt, rt_),
+                           ">=": ("F64.fle", rt_, lt)}[op]
+                return k(f"{f} {vatom(a)} {vatom(b)}", "bool", env)
+            self.err(f"`{op}` on {lty} is outside the idiom table", line)
+        if op in ("+", "-", "*", "/"):
+            if lty == "f64":
+                f = {"+": "F64.add", "-": "F64.sub", "*": "F64.mul", "/": "F64.div"}[op]
+                return k(f"{f} {vatom(lt)} {vatom(rt_)}", "f64", env)
+            if lty == "usize" and op in ("+", "-"):
+                return self.lift_fault(f"{'usizeAdd' if op == '+' else 'usizeSub'} {vatom(lt)} {vatom(rt_)}", "usize", env, k, line)
+        self.err(f"operator `{op}` on {lty} is outside the subset of the validation target", line)
+
+    def E_field(self, e, env, k):
+        recv, f, line = e[1], e[2], e[3]
+        if recv[0] == "path" and recv[1] == ["self"] and self.cur["selfty"] == "sig":
+            if f in self.sig_fields:
+                return k("self_" + f, self.sig_fields[f], env)
+            self.err(f"`self.{f}`: `struct Signature` has no such field", line)
+        self.err(f"field access `.{f}` is outside the idiom table", line)
+
+    def E_index(self, e, env, k):
+        recv, idx, line = e[1], e[2], e[3]
+
+        def ki(vals, env2):
+            (xs, xty), (i, ity_) = vals
+            xty = resolve(xty)
+            if not (isinstance(xty, tuple) and xty[0] == "list"):
+                self.err(f"indexing into {xty}", line)
+            if ity_ != "usize":
+                self.err(f"index of type {ity_}", line)
+            return self.lift_fault(f"indexChecked {vatom(xs)} {vatom(i)}", xty[1], env2, k, line)
+        return self.E_list([recv, idx], [None, "usize"], env, ki)
+
+    def E_struct(self, e, env, k):
+        segs, fields, line = e[1], e[2], e[3]
+        if len(segs) == 2 and segs[0] == "RuntimeError" and segs[1] in V_RTERR:
+            ctor, order = V_RTERR[segs[1]]
+            given = dict(fields)
+            if sorted(given) != sorted(f for f, _ in order) or len(fields) != len(order):
+                self.err(f"`RuntimeError::{segs[1]} {{ .. }}` does not name exactly the fields {[f for f, _ in order]}", line)
+            # Rust evaluates the field expressions in the order written
+            def kf(vals, env2):
+                m = {fields[i][0]: vals[i] for i in range(len(fields))}
+                for f, fty in order:
+                    if not unify(m[f][1], fty):
+                        self.err(f"field `{f}` of `RuntimeError::{segs[1]}` initialised with {m[f][1]}", line)
+                return k(" ".join([f"RtErr.{ctor}"] + [vatom(m[f][0]) for f, _ in order]), "rterr", env2)
+            return self.E_list([x for _, x in fields], [dict(order)[f] for f, _ in fields], env, kf)
+        self.err(f"struct expression `{'::'.join(segs)} {{ .. }}` is outside the idiom table", line)
+
+    def E_assign(self, e, env, k):
+        op, lhs, rhs, line = e[1], e[2], e[3], e[4]
+        if not (lhs[0] == "path" and len(lhs[1]) == 1 and lhs[1][0] in env):
+            self.err("assignment to something that is not a local variable", line)
+        name = lhs[1][0]
+        lean, ty = env[name][0], env[name][1]
+        if not lean.isidentifier():
+            self.err(f"assignment to `{name}`, which is not a plain local", line)
+        if op != "=":
+            rhs = ("binary", op[0], lhs, rhs, line)
+
+        def ka(t, tty, env2):
+            if isinstance(tty, tuple) and tty[0] in ("res_ok", "res_err"):
+                self.err("assignment of a `Result` to a variable is outside the subset", line)
+            t, tty = self.as_bool(t, tty)
+            if not unify(ty, tty):
+                self.err(f"assigning {tty} to a variable of type {ty}", line)
+            return ("let", lean, ty, t, k("()", "unit", env2))
+        return self.E(rhs, env, ka, ty)
+
+    def E_call(self, e, env, k, exp):
+        f, args, line = e[1], e[2], e[3]
+        if f[0] != "path":
+            self.err("call of a computed function is outside the subset", line)
+        name = "::".join(f[1])
+        if name == "Ok" and len(args) == 1:
+            def ko(t, ty, env2):
+                if isinstance(ty, tuple) and ty[0] in ("res_ok", "res_err"):
+                    self.err("nested `Result`", line)
+                return k(t, ("res_ok", ty), env2)
+            return self.E(args[0], env, ko)
+        if name == "Err" and len(args) == 1:
+            def ke(t, ty, env2):
+                if ty != "jerr":
+                    self.err(f"`Err` of {ty}: only `JmespathError::from_ctx(..)` is in the idiom table", line)
+                return k(t, ("res_err",), env2)
+            return self.E(args[0], env, ke)
+        if name == "Some" and len(args) == 1:
+            want = resolve(exp)
+            inner = want[1] if isinstance(want, tuple) and want[0] == "opt" else None
+
+            def ks(t, ty, env2):
+                t, ty = self.as_bool(t, ty)
+                return k(f"some {vatom(t)}", ("opt", ty), env2)
+            return self.E(args[0], env, ks, inner)
+        if name == "ErrorReason::Runtime" and len(args) == 1:
+            def kr(t, ty, env2):
+                if ty != "rterr":
+                    self.err(f"`ErrorReason::Runtime` of {ty}", line)
+                return k(t, "reason", env2)
+            return self.E(args[0], env, kr)
+        if name == "JmespathError::from_ctx" and len(args) == 2:
+            ctxs = [p for p, ty in self.cur["drop"] if ty == "ctx"]
+            if not (args[0][0] == "path" and args[0][1] == ctxs[:1]):
+                self.err("`JmespathError::from_ctx` whose first argument is not the `ctx` parameter", line)
+
+            def kj(t, ty, env2):
+                if ty != "reason":
+                    self.err(f"`JmespathError::from_ctx(ctx, r)` with r of type {ty}: only `ErrorReason::Runtime(..)` is in "
+                             "the idiom table", line)
+                return k(f"Fail.err {vatom(t)}", "jerr", env2)
+            return self.E(args[1], env, kj)
+        if name in ("max", "min", "std::cmp::max", "std::cmp::min", "cmp::max", "cmp::min") and len(args) == 2:
+            (a, aty), (b, bty) = self.pure(args[0], env, "usize"), self.pure(args[1], env, "usize")
+            if aty == "usize" and bty == "usize":
+                return k(f"{name.split('::')[-1]} {vatom(a)} {vatom(b)}", "usize", env)
+        if len(f[1]) == 1 and (None, f[1][0]) in self.fns:
+            return self.call_fn(self.fns[(None, f[1][0])], [], args, env, k, line)
+        self.err(f"call of `{name}` is outside the idiom table", line)
+
+    def call_fn(self, info, self_terms, args, env, k, line):
+        """call of a translated function: dropped parameters (`ctx`, `fmt`) must be passed on unchanged"""
+        fnparams = [(p, t) for p, t in info["fn"]["params"] if p != "self"]
+        if len(args) != len(fnparams):
+            self.err(f"`{info['rust']}` called with {len(args)} arguments", line)
+        keep, keep_tys = [], []
+        dropped = dict(info["drop"])
+        for (p, _), a in zip(fnparams, args):
+            if p in dropped:
+                mine = [q for q, ty in self.cur["drop"] if ty == dropped[p]]
+                a0 = a
+                while a0[0] == "unary" and a0[1] in ("&", "*"):
+                    a0 = a0[2]
+                if not (a0[0] == "path" and a0[1] == mine[:1]):
+                    self.err(f"`{info['rust']}` must receive the caller's own `{p}`", line)
+            else:
+                keep.append(a)
+                keep_tys.append(dict(info["params"])[p])
+
+        def ka(vals, env2):
+            terms = []
+            for (t, ty), want in zip(vals, keep_tys):
+                t, ty = self.as_bool(t, ty)
+                if not unify(ty, want):
+                    self.err(f"`{info['rust']}` called with an argument of type {ty} where {want} is expected", line)
+                terms.append(t)
+            call = self.call_term(info, self_terms, terms)
+            if info["kind"] == "result":
+                if self.cur["kind"] != "result":
+                    self.err(f"call of the fallible `{info['rust']}` in a function that cannot fail", line)
+                return self.call_split(call, info["ret"][1], env2, k)
+            return k(call, info["ret"], env2)
+        return self.E_list(keep, keep_tys, env, ka)
+
+    def closure1(self, cl, n, line, what):
+        if cl[0] != "closure" or len(cl[1]) != n:
+            self.err(f"`{what}` whose argument is not a closure with {n} parameter(s)", line)
+        return cl[1], cl[2]
+
+    def aux_recursion(self, kindname, lists, eltys, pats, body, env, line):
+        """`.all` / `.any` / `.map` over one list (or `.all` over two zipped lists): inline `List.all ..` when the closure
+        body does not call the group, else an auxiliary structural recursion; -> (term, type)"""
+        benv = dict(env)
+        xs = []
+        for p, ty in zip(pats, eltys):
+            if p[0] == "wild":
+                xs.append("_")
+            elif p[0] == "bind":
+                ln = self.bind_name(p[1], benv)
+                benv[p[1]] = (ln, ty)
+                xs.append(ln)
+            else:
+                self.err("closure parameter pattern is outside the subset", line)
+        saved = self.rec_used
+        self.rec_used = False
+        bt, bty = self.pure(body, benv, "bool" if kindname != "map" else None)
+        rec = self.rec_used
+        self.rec_used = saved or rec
+        bt, bty = self.as_bool(bt, bty)
+        if kindname != "map" and bty != "bool":
+            self.err(f"closure of `.{kindname}` returns {bty}", line)
+        rety = "bool" if kindname != "map" else ("list", bty)
+        if not rec and len(lists) == 1:
+            fn = {"all": "List.all", "any": "List.any", "map": "List.map"}[kindname]
+            lam = f"(fun {xs[0]} => {bt})"
+            return (f"{fn} {vatom(lists[0])} {lam}" if kindname != "map" else f"List.map {lam} {vatom(lists[0])}"), rety
+        # captured variables, in environment order
+        import re as _re
+        binders = {b for b in xs if b != "_"}
+        caps = []
+        for name, (lean, ty) in env.items():
+            if lean in binders or not lean.isidentifier():
+                continue
+            if _re.search(r"(?<![A-Za-z0-9_'.])" + _re.escape(lean) + r"(?![A-Za-z0-9_'])", bt) and lean not in [c[0] for c in caps]:
+                caps.append((lean, ty))
+        base = f"{self.cur['lean']}_{kindname}{'_zip' if len(lists) == 2 else ''}_"
+        n = sum(1 for a in self.auxes if f"\ndef {base}" in a) + 1      # numbered per kind: independent of the order of the arms
+        name = f"{base}{n}"
+        capsig = "".join(f" ({c} : {vty(t)})" for c, t in caps)
+        capargs = "".join(f" {c}" for c, _ in caps)
+        rest = ["rest"] if len(lists) == 1 else ["rest1", "rest2"]
+        for r_ in rest:
+            if r_ in binders or r_ in [c for c, _ in caps]:
+                self.err("name clash with the generated list binder", line)
+        tys = " → ".join(f"List {vatom(vty(t))}" for t in eltys)
+        doc = (f"/-- `.{'zip(..).' if len(lists) == 2 else ''}{kindname}(|..| ..)` of `fn {self.cur['rust']}`, {self.cur['sf'].name}:{line}, "
+               f"as a structural recursion (the closure calls the function being defined) -/")
+        if kindname == "map":
+            text = "\n".join([doc, f"def {name}{capsig} : {tys} → {vty(rety)}", "  | [] => []",
+                              f"  | {xs[0]} :: rest => {vatom(bt)} :: {name}{capargs} rest"])
+        elif len(lists) == 1:
+            op, unit = ("&&", "true") if kindname == "all" else ("||", "false")
+            text = "\n".join([doc, f"def {name}{capsig} : {tys} → Bool", f"  | [] => {unit}",
+                              f"  | {xs[0]} :: rest => {vatom(bt)} {op} {name}{capargs} rest"])
+        else:
+            if kindname != "all":
+                self.err("only `.zip(..).all(..)` is in the idiom table", line)
+            text = "\n".join([doc, f"def {name}{capsig} : {tys} → Bool",
+                              f"  | {xs[0]} :: rest1, {xs[1]} :: rest2 => {vatom(bt)} && {name}{capargs} rest1 rest2",
+                              "  | _, _ => true"])
+        self.auxes.append(text)
+        return f"{name}{capargs} " + " ".join(vatom(l) for l in lists), rety
+
+    def E_mcall(self, e, env, k, exp):
+        recv, m, args, line = e[1], e[2], e[3], e[4]
+        targs = e[5] if len(e) > 5 else None
+
+        def kr(r, rty, env2):
+            rty = resolve(rty)
+            # methods of the translated functions
+            if (rty, m) in self.fns and not isinstance(rty, tuple):
+                info = self.fns[(rty, m)]
+                return self.call_fn(info, [r], args, env2, k, line)
+            if rty == "sigself" and ("sig", m) in self.fns:
+                info = self.fns[("sig", m)]
+                return self.call_fn(info, [p for p, _ in self.self_params(info)], args, env2, k, line)
+            if m == "to_string" and not args and rty in V_DISPLAY and (rty, "fmt") in self.fns:
+                return k(self.call_term(self.fns[(rty, "fmt")], [r], []), "string", env2)
+            if m in ("clone", "to_owned", "as_ref", "to_string", "as_str") and not args and \
+                    (rty in ("val", "ast", "string", "argt", "jtype", "bool", "usize", "f64") or
+                     (isinstance(rty, tuple) and rty[0] in ("list", "map", "opt"))) and \
+                    not (m in ("to_string", "as_str") and rty != "string"):
+                return k(r, rty, env2)
+            if rty == "val" and m == "get_type" and not args:
+                return k(f"Val.type {vatom(r)}", "jtype", env2)
+            if rty == "number" and m == "as_f64" and not args:
+                return k(f"some (Num.toF64 {vatom(r)})", ("opt", "f64"), env2)
+            if rty == "f64":
+                if m in ("abs", "is_normal", "is_nan") and not args:
+                    f, ty = {"abs": ("F64.abs", "f64"), "is_normal": ("F64.isNormal", "bool"), "is_nan": ("F64.isNaN", "bool")}[m]
+                    return k(f"{f} {vatom(r)}", ty, env2)
+                if m in ("min", "partial_cmp") and len(args) == 1:
+                    a, aty = self.pure(args[0], env2, "f64")
+                    if aty != "f64":
+                        self.err(f"`.{m}` with an argument of type {aty}", line)
+                    if m == "min":
+                        return k(f"F64.fmin {vatom(r)} {vatom(a)}", "f64", env2)
+                    return k(f"f64PartialCmp {vatom(r)} {vatom(a)}", ("opt", "ordering"), env2)
+            if rty == "string" and m == "cmp" and len(args) == 1:
+                a, aty = self.pure(args[0], env2, "string")
+                if aty != "string":
+                    self.err(f"`.cmp` with an argument of type {aty}", line)
+                return k(f"compare {vatom(r)} {vatom(a)}", "ordering", env2)
+            if isinstance(rty, tuple) and rty[0] == "opt":
+                if m in ("is_some", "is_none") and not args:
+                    return k(f"Option.{'isSome' if m == 'is_some' else 'isNone'} {vatom(r)}", "bool", env2)
+                if m in ("unwrap_or", "or") and len(args) == 1:
+                    want = rty[1] if m == "unwrap_or" else rty
+                    a, aty = self.pure(args[0], env2, want)
+                    if not unify(aty, want):
+                        self.err(f"`.{m}` on {rty} with an argument of type {aty}", line)
+                    return k(f"Option.getD {vatom(r)} {vatom(a)}" if m == "unwrap_or" else f"Option.or {vatom(r)} {vatom(a)}",
+                             want, env2)
+                if m == "map_or" and len(args) == 2:
+                    d, dty = self.pure(args[0], env2, exp)
+                    pats, body = self.closure1(args[1], 1, line, "map_or")
+                    if pats[0][0] != "bind":
+                        self.err("`map_or` closure parameter is not a name", line)
+                    env3 = dict(env2)
+                    lx = self.bind_name(pats[0][1], env3)
+                    env3[pats[0][1]] = (lx, rty[1])
+                    b, bty = self.pure(body, env3, dty)
+                    d, dty = self.as_bool(d, dty)
+                    b, bty = self.as_bool(b, bty)
+                    if not unify(dty, bty):
+                        self.err(f"`map_or` with a default of type {dty} and a closure returning {bty}", line)
+                    return k(f"(match {r} with | some {lx} => {b} | none => {d})", bty, env2)
+            if isinstance(rty, tuple) and rty[0] == "list":
+                if m == "len" and not args:
+                    return k(f"List.length {vatom(r)}", "usize", env2)
+                if m == "get" and len(args) == 1:
+                    a, aty = self.pure(args[0], env2, "usize")
+                    if aty != "usize":
+                        self.err(f"`.get` with an index of type {aty}", line)
+                    return k(f"{vatom(r)}[{a}]?", ("opt", rty[1]), env2)
+                if m == "iter" and not args:
+                    return k(r, ("iter", rty[1]), env2)
+                if m == "join" and len(args) == 1 and rty[1] == "string":
+                    a, aty = self.pure(args[0], env2, "string")
+                    if aty != "string":
+                        self.err(f"`.join` with a separator of type {aty}", line)
+                    return k(f"String.intercalate {vatom(a)} {vatom(r)}", "string", env2)
+            if isinstance(rty, tuple) and rty[0] == "iter":
+                if m == "cloned" and not args:
+                    return k(r, rty, env2)
+                if m == "enumerate" and not args:
+                    return k(r, ("enum", rty[1]), env2)
+                if m == "zip" and len(args) == 1:
+                    a, aty = self.pure(args[0], env2)
+                    aty = resolve(aty)
+                    if not (isinstance(aty, tuple) and aty[0] in ("iter", "list")):
+                        self.err(f"`.zip` with {aty}", line)
+                    return k((r, a), ("zip", rty[1], aty[1]), env2)
+                if m in ("all", "any", "map") and len(args) == 1:
+                    pats, body = self.closure1(args[0], 1, line, m)
+                    t, ty = self.aux_recursion(m, [r], [rty[1]], pats, body, env2, line)
+                    if m == "map":
+                        return k(t, ("iter", ty[1]), env2)
+                    return k(t, ty, env2)
+                if m == "collect" and not args:
+                    want = None
+                    if targs is not None and len(targs) == 1:
+                        tv = targs[0]
+                        want = ("list", rty[1]) if (tv[0] == "path" and tv[1] == "Vec" and tv[2] and tv[2][0] == ("path", "_", [])) \
+                            else self.rty(tv)
+                    elif exp is not None:
+                        want = resolve(exp)
+                    if not (isinstance(want, tuple) and want[0] == "list" and unify(want[1], rty[1])):
+                        self.err(f"`collect` of an iterator over {rty[1]} into {want}: only `Vec` is in the idiom table", line)
+                    return k(r, ("list", rty[1]), env2)
+            if isinstance(rty, tuple) and rty[0] == "zip" and m == "all" and len(args) == 1:
+                pats, body = self.closure1(args[0], 1, line, m)
+                if pats[0][0] != "tuple" or len(pats[0][1]) != 2:
+                    self.err("`.zip(..).all(..)` whose closure parameter is not a pair pattern", line)
+                t, ty = self.aux_recursion("all", [r[0], r[1]], [rty[1], rty[2]], pats[0][1], body, env2, line)
+                return k(t, ty, env2)
+            self.err(f"method `.{m}` on {rty} is outside the idiom table", line)
+        if recv[0] == "path" and recv[1] == ["self"] and self.cur["selfty"] == "sig":
+            return kr("%self", "sigself", env)
+        return self.E(recv, env, kr)
+
+    def E_macro(self, e, env, k, exp):
+        name, inner, line = e[1], e[2], e[3]
+        src = TokSource(self.cur["sf"], inner, line)
+        p = Parser(src, 0)
+        if name == "matches":
+            scrut = p.expr()
+            p.expect(",")
+            pat = p.pattern()
+            guard = p.expr() if p.eat("if") else None
+            p.eat(",")
+            if p.peek().kind != "eof":
+                self.err("malformed `matches!`", line)
+            arms = [(pat, guard, ("bool", True)), (("wild",), None, ("bool", False))]
+            return self.E(("match", scrut, arms, line), env, k, "bool")
+        if name == "write":
+            items = []
+            while p.peek().kind != "eof":
+                items.append(p.expr())
+                if not p.eat(","):
+                    break
+            if p.peek().kind != "eof" or len(items) < 2:
+                self.err("malformed `write!`", line)
+            fmts = [q for q, ty in self.cur["drop"] if ty == "fmtr"]
+            if not (items[0][0] == "path" and items[0][1] == fmts[:1]):
+                self.err("`write!` whose first argument is not the `Formatter` parameter", line)
+            if items[1][0] != "lit" or not items[1][1].startswith('"') or "\\" in items[1][1]:
+                self.err("`write!` whose format is not a plain string literal", line)
+            fs = items[1][1][1:-1]
+            parts, cur, i, holes = [], "", 0, 0
+            while i < len(fs):
+                if fs.startswith("{{", i) or fs.startswith("}}", i):
+                    cur += fs[i]
+                    i += 2
+                elif fs.startswith("{}", i):
+                    parts.append(("lit", cur))
+                    parts.append(("hole", holes))
+                    holes += 1
+                    cur = ""
+                    i += 2
+                elif fs[i] in "{}":
+                    self.err("format specification other than `{}` is outside the subset", line)
+                else:
+                    cur += fs[i]
+                    i += 1
+            parts.append(("lit", cur))
+            if holes != len(items) - 2:
+                self.err("`write!`: number of `{}` and of arguments differ", line)
+
+            def kw(vals, env2):
+                out = []
+                for kind_, v in parts:
+                    if kind_ == "lit":
+                        if v:
+                            out.append('"' + v + '"')
+                        continue
+                    t, ty = vals[v]
+                    ty = resolve(ty)
+                    if ty == "string":
+                        out.append(vatom(t))
+                    elif ty in V_DISPLAY and (ty, "fmt") in self.fns:
+                        out.append(vatom(self.call_term(self.fns[(ty, "fmt")], [t], [])))
+                    elif ty == "usize":
+                        out.append(f"toString {vatom(t)}")
+                    else:
+                        self.err(f"`{{}}` of {ty} is outside the idiom table", line)
+                return k(" ++ ".join(out) if out else '""', "written", env2)
+            return self.E_list(items[2:], [None] * (len(items) - 2), env, kw)
+        self.err(f"macro `{name}!` is outside the subset", line)
+
+    # -- patterns and match
+    def universe(self, sty):
+        if sty in V_ENUMS:
+            return {v: (f".{c}", p) for v, (c, p) in V_ENUMS[sty][1].items()}
+        if isinstance(sty, tuple) and sty[0] == "opt":
+            return {"Some": ("some", sty[1]), "None": ("none", None)}
+        return None
+
+    def classify(self, pat, sty, uni, line):
+        """-> (variant or None for a wildcard, sub-pattern or None)"""
+        k = pat[0]
+        if k == "wild":
+            return None, None
+        if k == "bind":
+            self.err("binding the whole scrutinee in a match arm is outside the subset", line)
+        if k in ("ppath", "tstruct"):
+            segs = pat[1]
+            v = segs[-1]
+            if len(segs) == 2 and not (sty in V_ENUMS and V_ENUMS[sty][0] == segs[0]):
+                self.err(f"pattern `{'::'.join(segs)}` on {sty}", line)
+            if len(segs) > 2 or v not in uni:
+                self.err(f"pattern `{'::'.join(segs)}` on {sty} is outside the subset", line)
+            payload = uni[v][1]
+            subs = pat[2] if k == "tstruct" else []
+            if payload is None:
+                if subs:
+                    self.err(f"`{v}` takes no payload", line)
+                return v, None
+            if len(subs) != 1:
+                self.err(f"`{v}` takes one payload", line)
+            if subs[0][0] not in ("bind", "wild"):
+                if subs[0] == ("tuple", []) and payload == "unit":
+                    return v, ("wild",)
+                self.err("nested patterns are outside the subset", line)
+            return v, subs[0]
+        self.err(f"pattern {pat!r} on {sty} is outside the subset", line)
+
+    def cond(self, c, env):
+        t, ty = self.pure(c, env, "bool")
+        if ty not in ("bool", "prop"):
+            self.err(f"condition of type {ty}")
+        return t if ty == "prop" else f"{vatom(t)} = true"
+
+    def match_core(self, s, sty, arms, env, k, exp, line):
+        sty = resolve(sty)
+        if sty == "char":
+            return self.match_char(s, arms, env, k, exp, line)
+        uni = self.universe(sty)
+        if uni is None:
+            self.err(f"`match` on {sty} is outside the subset", line)
+        cl = []
+        for pat, guard, body in arms:
+            alts = pat[1] if pat[0] == "or" else [pat]
+            for a in alts:
+                if pat[0] == "or" and pat_binders(a):
+                    self.err("or-patterns with binders are outside the subset", line)
+                v, sub = self.classify(a, sty, uni, line)
+                cl.append((v, sub, guard, body))
+        out, handled = [], []
+
+        def chain(items, binder, payload):
+            def go(i):
+                if i == len(items):
+                    self.err("`match` is not exhaustive as far as the translator can see (a guarded arm falls through to nothing)", line)
+                v, sub, guard, body = items[i]
+                env_arm = dict(env)
+                names = []
+                if v is not None and sub is not None and sub[0] == "bind":
+                    env_arm[sub[1]] = (binder, payload)
+                    names = [sub[1]]
+                bc = lambda: self.E(body, env_arm, self.scoped(k, env, names), exp)
+                if guard is None:
+                    return bc()
+                c = self.cond(guard, env_arm)
+                return ("if", c, bc(), go(i + 1))
+            return go(0)
+        for v, sub, guard, body in cl:
+            if v is None or v in handled:
+                continue
+            handled.append(v)
+            compat = [x for x in cl if x[0] == v or x[0] is None]
+            ctor, payload = uni[v]
+            binder = None
+            if payload is not None:
+                named = [x[1][1] for x in compat if x[0] == v and x[1] is not None and x[1][0] == "bind"]
+                binder = self.bind_name(named[0], env) if named else "_"
+            lp = ctor if payload is None else f"{ctor} {binder}"
+            out.append((lp, chain(compat, binder, payload)))
+        if set(handled) != set(uni):
+            wilds = [x for x in cl if x[0] is None]
+            if not wilds:
+                self.err(f"`match` has no arm for {sorted(set(uni) - set(handled))}", line)
+            out.append(("_", chain(wilds, None, None)))
+        if len(out) == 1 and out[0][0] == "_":
+            return out[0][1]
+        return ("match", s, out)
+
+    def match_char(self, s, arms, env, k, exp, line):
+        def go(i):
+            if i == len(arms):
+                self.err("`match` on a `char` without a final `_` arm", line)
+            pat, guard, body = arms[i]
+            if guard is not None:
+                self.err("guards in a `match` on `char` are outside the subset", line)
+            if pat[0] == "wild":
+                return self.E(body, env, k, exp)
+            if pat[0] == "lit" and pat[1].startswith("'"):
+                return ("if", f"{vatom(s)} = {pat[1]}", self.E(body, env, k, exp), go(i + 1))
+            self.err(f"pattern {pat!r} on `char` is outside the subset", line)
+        return go(0)
+
+    def match_tuple(self, items, arms, env, k, exp, line):
+        """`match (e1, e2) { (p1, p2) => a, _ => b }` / `if let (p1, p2) = (e1, e2) { a } else { b }`"""
+        if len(arms) != 2 or arms[0][0][0] != "tuple" or arms[1][0][0] != "wild" or arms[0][1] is not None or arms[1][1] is not None \
+                or len(arms[0][0][1]) != len(items):
+            self.err("a `match` on a tuple other than `{ (p, q) => .., _ => .. }` is outside the subset", line)
+        vals = [self.pure(x, env) for x in items]
+        env_arm = dict(env)
+        lps, names = [], []
+        for sub, (t, ty) in zip(arms[0][0][1], vals):
+            ty = resolve(ty)
+            uni = self.universe(ty)
+            if sub[0] == "wild":
+                lps.append("_")
+                continue
+            if uni is None:
+                self.err(f"tuple component of type {ty} under a pattern is outside the subset", line)
+            v, sp = self.classify(sub, ty, uni, line)
+            ctor, payload = uni[v]
+            if payload is None:
+                lps.append(ctor)
+            elif sp[0] == "bind":
+                b = self.bind_name(sp[1], env_arm)
+                env_arm[sp[1]] = (b, payload)
+                names.append(sp[1])
+                lps.append(f"{ctor} {b}")
+            else:
+                lps.append(f"{ctor} _")
+        first = self.E(arms[0][2], env_arm, self.scoped(k, env, names), exp)
+        second = self.E(arms[1][2], env, k, exp)
+        return ("match", ", ".join(t for t, _ in vals), [(", ".join(lps), first), (", ".join("_" for _ in vals), second)])
+
+    def E_match(self, e, env, k, exp):
+        scrut, arms, line = e[1], e[2], e[3]
+        s0 = scrut
+        while s0[0] == "unary" and s0[1] in ("&", "*"):
+            s0 = s0[2]
+        if s0[0] == "tuple":
+            return self.match_tuple(s0[1], arms, env, k, exp, line)
+
+        def ks(s, sty, env2):
+            if isinstance(resolve(sty), tuple) and resolve(sty)[0] in ("res_ok", "res_err"):
+                self.err("`match` on a `Result` is outside the subset (use `?`)", line)
+            return self.match_core(s, sty, arms, env2, k, exp, line)
+        return self.E(scrut, env, ks)
+
+    def E_if(self, e, env, k, exp):
+        cnd, then, els, line = e[1], e[2], e[3], e[4]
+        if cnd[0] == "letcond":
+            pat, scrut = cnd[1], cnd[2]
+            if pat[0] in ("bind", "wild"):
+                self.err("irrefutable `if let`", line)
+            other = els if els is not None else ("block", [], None)
+            return self.E_match(("match", scrut, [(pat, None, then), (("wild",), None, other)], line), env, k, exp)
+
+        def else_comp():
+            if els is None:
+                return k("()", "unit", env)
+            if els[0] == "if":
+                return self.E_if(els, env, k, exp)
+            return self.B(els, env, k, exp)
+        return ("if", self.cond(cnd, env), self.B(then, env, k, exp), else_comp())
+
+    def B(self, block, env, k, exp=None):
+        stmts, tail = block[1], block[2]
+        k = self.scoped(k, env, [s[1][1] for s in stmts if s[0] == "let" and s[1][0] == "bind"])
+
+        def go(i, env):
+            if i == len(stmts):
+                if tail is None:
+                    return k("()", "unit", env)
+                return self.E(tail, env, k, exp)
+            s = stmts[i]
+            if s[0] == "let":
+                pat, ty, init, line = s[1], s[2], s[3], s[4]
+                if pat[0] != "bind":
+                    self.err("only `let name` patterns are in the subset", line)
+                if init is None:
+                    self.err("`let` without initialiser is outside the subset", line)
+                name = pat[1]
+                dty = self.rty(ty, self.cur["selfty"]) if ty else None
+
+                def kl(t, tty, env2):
+                    tty = resolve(tty)
+                    if tty in ("unit", "ctx", "fmtr", "sigself", "written") or (isinstance(tty, tuple) and tty[0] in ("res_ok", "res_err", "zip", "enum")):
+                        self.err(f"`let {name}` bound to {tty} is outside the subset", line)
+                    t, tty = self.as_bool(t, tty)
+                    if dty is not None and not unify(dty, tty) and not (isinstance(tty, tuple) and tty[0] == "iter" and unify(dty, ("list", tty[1]))):
+                        self.err(f"`let {name}: {dty}` initialised with {tty}", line)
+                    env3 = dict(env2)
+                    lean = self.bind_name(name, env2)
+                    env3[name] = (lean, tty)
+                    return ("let", lean, tty, t, go(i + 1, env3))
+                return self.E(init, env, kl, dty)
+            e = s[1]
+
+            def ke(t, tty, env2):
+                if isinstance(tty, tuple) and tty[0] in ("res_ok", "res_err"):
+                    self.err("a `Result` is dropped without `?`", s[2])
+                return go(i + 1, env2)
+            return self.E(e, env, ke)
+        return go(0, env)
+
+    # -- loops
+    def E_for(self, e, env, k):
+        pat, it, body, line, endline = e[1], e[2], e[3], e[4], e[5]
+        if has_kind(body, "return") or has_kind(body, "for") or has_kind(body, "while"):
+            self.err("`return` or a nested loop inside `for` is outside the subset", line)
+        itt, itty = self.pure(it, env)
+        itty = resolve(itty)
+        if not (isinstance(itty, tuple) and itty[0] in ("list", "iter", "enum")):
+            self.err(f"`for` over {itty} is outside the subset", line)
+        elty = itty[1]
+        benv_names = {}
+        idx = None
+        if itty[0] == "enum":
+            if pat[0] != "tuple" or len(pat[1]) != 2 or any(p[0] not in ("bind", "wild") for p in pat[1]):
+                self.err("`for` over `.enumerate()` needs a pattern `(k, v)`", line)
+            ipat, xpat = pat[1]
+        else:
+            if pat[0] not in ("bind", "wild"):
+                self.err("`for` with a pattern other than a name is outside the subset", line)
+            ipat, xpat = None, pat
+        inner_decl = set(declared_vars(body)) | set(pat_binders(pat))
+        state = []
+        for n in walk(body):
+            if n[0] == "assign" and n[2][0] == "path" and len(n[2][1]) == 1:
+                v = n[2][1][0]
+                if v in env and v not in inner_decl and v not in state:
+                    state.append(v)
+        state = [v for v in env if v in state]
+        names = used_names(body)
+        # the fields of `self` (Signature) a body mentions are free variables of the loop
+        frees = [v for v in env if v in names and v not in state and v not in inner_decl]
+        selfps = self.self_params(self.cur) if "self" in names else []
+        for v in frees + state:
+            if not env[v][0].isidentifier():
+                self.err(f"loop uses `{v}`, which is not a plain local", line)
+        lname = f"{self.cur['lean']}_loop_{len(self.loops) + 1}"
+        self.taken.add(lname)
+        benv = {v: env[v] for v in frees + state}
+        if "self" in env:
+            benv["self"] = env["self"]
+        x = "_"
+        if xpat[0] == "bind":
+            x = self.bind_name(xpat[1], benv)
+            benv[xpat[1]] = (x, elty)
+        if ipat is not None:
+            idx = self.bind_name(ipat[1], benv) if ipat[0] == "bind" else self.fresh("k")
+            if ipat[0] == "bind":
+                benv[ipat[1]] = (idx, "usize")
+        sttuple = "()" if not state else (env[state[0]][0] if len(state) == 1 else "(" + ", ".join(env[v][0] for v in state) + ")")
+        fixed = [p for p, _ in selfps] + [env[v][0] for v in frees]
+        fixed_sig = "".join(f" ({p} : {vty(t)})" for p, t in selfps) + "".join(f" ({env[v][0]} : {vty(env[v][1])})" for v in frees)
+        call = " ".join([lname] + fixed + ([f"({idx} + 1)"] if idx else []) + ["rest"] + [env[v][0] for v in state])
+        saved_rec, self.rec_used = self.rec_used, False
+
+        def kend(t, ty, env2):
+            return ("ret", call)
+        bodyc = vsimplify(self.B(body, benv, kend))
+        if self.rec_used:
+            self.err("a loop body that calls the function being defined is outside the subset", line)
+        self.rec_used = saved_rec
+        fails = ".error " in "\n".join(vrender(bodyc, 0))
+        stty = "Unit" if not state else " × ".join(vatom(vty(env[v][1])) for v in state)
+        resty = f"Except Fail {vatom(stty)}" if fails else stty
+        argtys = (["Nat"] if idx else []) + [f"List {vatom(vty(elty))}"] + [vty(env[v][1]) for v in state]
+        doc = (f"/-- `for {'(..)' if ipat is not None else (xpat[1] if xpat[0] == 'bind' else '_')} in ..` of `fn {self.cur['rust']}`, "
+               f"{self.cur['sf'].name}:{line}-{endline}; reads: {', '.join(fixed) or '-'}; state: {', '.join(state) or '-'} -/")
+        done = (".ok " + vatom(sttuple)) if fails else sttuple
+        lines = [doc, f"def {lname}{fixed_sig} : " + " → ".join(argtys + [resty]),
+                 "  | " + ", ".join((["_"] if idx else []) + ["[]"] + [env[v][0] for v in state]) + f" => {done}",
+                 "  | " + ", ".join(([idx] if idx else []) + [f"{x} :: rest"] + [env[v][0] for v in state]) + " =>"]
+        lines += vrender(bodyc, 2)
+        self.loops.append("\n".join(lines))
+        start = " ".join([lname] + fixed + (["0"] if idx else []) + [vatom(itt)] + [env[v][0] for v in state])
+        if fails:
+            if self.cur["kind"] != "result":
+                self.err("a loop that can fail in a function that cannot", line)
+            e_ = self.fresh("e")
+            return ("match", start, [(f".error {e_}", ("ret", f".error {e_}")),
+                                     (f".ok {sttuple if state else '_'}", k("()", "unit", env))])
+        if not state:
+            return k("()", "unit", env)
+        if len(state) == 1:
+            return ("let", env[state[0]][0], env[state[0]][1], start, k("()", "unit", env))
+        return ("match", start, [(sttuple, k("()", "unit", env))])
+
+    # -- results
+    def retk(self, t, ty, env):
+        ty = resolve(ty)
+        kind = self.cur["kind"]
+        if kind == "result":
+            if ty == ("res_err",):
+                return ("ret", f".error {vatom(t)}")
+            if isinstance(ty, tuple) and ty[0] == "res_ok":
+                if not unify(ty[1], self.cur["ret"][1]):
+                    self.err(f"the function returns `Ok` of {ty[1]}")
+                return ("ret", f".ok {vatom(t)}")
+            self.err(f"the function returns {ty}, not a `Result`")
+        if kind == "fmt":
+            if ty != "written":
+                self.err("a path of `fmt` does not end in `write!(fmt, ..)`")
+            return ("ret", t)
+        t, ty = self.as_bool(t, ty)
+        if not unify(ty, self.cur["ret"]):
+            self.err(f"the function returns {ty} where {self.cur['ret']} is declared")
+        return ("ret", t)
+
+    # -- one function
+    def gen_fn(self, info):
+        self.cur = info
+        fn = info["fn"]
+        self.taken = set(used_names(fn["body"])) | set(declared_vars(fn["body"])) | {p for p, _ in fn["params"]}
+        for n in walk(fn["body"]):
+            if n[0] == "bind":
+                self.taken.add(n[1])
+        self.taken |= {"self_inputs", "self_variadic", "rest", "rest1", "rest2"}
+        self.loops = []
+        env = {}
+        sig = []
+        for p, t in self.self_params(info):
+            sig.append((p, t))
+        if info["selfty"] not in (None, "sig"):
+            env["self"] = ("self", info["selfty"])
+        for p, t in info["params"]:
+            ln = self.lname(p)
+            env[p] = (ln, t)
+            sig.append((ln, t))
+        info["ret_exp"] = {"result": "result", "fmt": "written"}.get(info["kind"], info["ret"])
+        body = vsimplify(self.B(fn["body"], env, self.retk, info["ret_exp"]))
+        where = f"{info['sf'].name}:{fn['start']}-{fn['end']}"
+        head = f"/-- {info['doc']}, {where} -/\ndef {info['lean']}" + "".join(f" ({p} : {vty(t)})" for p, t in sig) + \
+               f" : {vty(info['ret'])} :="
+        return self.loops, head + "\n" + "\n".join(vrender(body, 1))
+
+    def gen_group(self, infos, title=None):
+        """functions generated together; a `mutual` block when one of them is recursive"""
+        self.group = {i["key"] for i in infos}
+        self.auxes = []
+        self.rec_used = False
+        self.need_eq_templates = False
+        texts, loops = [], []
+        for i in infos:
+            l, t = self.gen_fn(i)
+            loops += l
+            texts.append(t)
+        rec = self.rec_used or bool(self.auxes)
+        self.group = set()
+        out = list(loops)
+        if rec:
+            block = ["mutual"] + texts + self.auxes
+            if self.need_eq_templates:
+                eqn = self.fns[("val", "eq")]["lean"]
+                block.append("/-- `==` on `Vec<Rcvar>` (std: same length and pairwise `==`), fixed template -/\n"
+                             "def eq_vec : List Val → List Val → Bool\n  | [], [] => true\n"
+                             f"  | a :: rest1, b :: rest2 => {eqn} a b && eq_vec rest1 rest2\n  | _, _ => false")
+                block.append("/-- `==` on `BTreeMap<String, Rcvar>` (std: same length and pairwise `==` of the entries in key order), "
+                             "fixed template -/\n"
+                             "def eq_map : List (String × Val) → List (String × Val) → Bool\n  | [], [] => true\n"
+                             f"  | (k1, a) :: rest1, (k2, b) :: rest2 => (k1 == k2 && {eqn} a b) && eq_map rest1 rest2\n  | _, _ => false")
+            block.append("end")
+            out.append("\n".join(block))
+        else:
+            out += texts
+        return out
+
+
+def check_enum(ctx, sf, name, tag, g):
+    if name not in sf.enums:
+        raise TieError(f"cannot find `enum {name}` in {sf.name}")
+    p = Parser(sf, sf.enums[name])
+    a0 = p.i
+    _, variants, _, _ = p.enum()
+    ctx.add_region(sf, a0, p.i)
+    table = V_ENUMS[tag][1]
+    have = {v: fs for v, fs in variants}
+    for v, (ctor, payload) in table.items():
+        if v not in have:
+            raise TieError(f"`{name}::{v}` of the translator's table is not in {sf.name}")
+        fs = have[v]
+        if (payload is None) != (not fs) or len(fs) > 1 or (fs and fs[0][0] is not None):
+            raise TieError(f"`{name}::{v}` in {sf.name} has a different shape than the model's `.{ctor}`")
+        if fs and g.rty(fs[0][1]) != payload:
+            raise TieError(f"`{name}::{v}` in {sf.name} carries {g.rty(fs[0][1])}, the model's `.{ctor}` carries {payload}")
+    for v in have:
+        if v not in table:
+            raise TieError(f"`{name}::{v}` in {sf.name} has no counterpart in the model")
+
+
+def generate_valid():
+    ctx = Ctx()
+    var = ctx.file("variable.rs")
+    fun = ctx.file("functions.rs")
+    errs = ctx.file("errors.rs")
+    g = VGen(ctx)
+    check_enum(ctx, var, "Variable", "val", g)
+    check_enum(ctx, var, "JmespathType", "jtype", g)
+    check_enum(ctx, fun, "ArgumentType", "argt", g)
+    # RuntimeError: the three struct variants used
+    if "RuntimeError" not in errs.enums:
+        raise TieError("cannot find `enum RuntimeError` in errors.rs")
+    p = Parser(errs, errs.enums["RuntimeError"])
+    a0 = p.i
+    _, rvariants, _, _ = p.enum()
+    ctx.add_region(errs, a0, p.i)
+    rhave = {v: fs for v, fs in rvariants}
+    for v, (ctor, order) in V_RTERR.items():
+        if v not in rhave or [(f, g.rty(t)) for f, t in rhave[v]] != order:
+            raise TieError(f"`RuntimeError::{v}` in errors.rs is no longer {order}")
+    # Signature
+    if "Signature" not in fun.structs:
+        raise TieError("cannot find `struct Signature` in functions.rs")
+    sp = Parser(fun, fun.structs["Signature"])
+    a0 = sp.i
+    _, sfields, _, _ = sp.struct()
+    ctx.add_region(fun, a0, sp.i)
+    g.sig_fields = {f: g.rty(t) for f, t in sfields}
+    if g.sig_fields != {"inputs": ("list", "argt"), "variadic": ("opt", "argt")}:
+        raise TieError("`struct Signature` is no longer `{ inputs: Vec<ArgumentType>, variadic: Option<ArgumentType> }`")
+    # from_ctx must be `JmespathError::new(ctx.expression, ctx.offset, reason)`
+    fc = Parser(errs, errs.find_fn("JmespathError", "from_ctx")).fn()
+    ctx.add_region(errs, fc["toks"][0], fc["toks"][1])
+    b = fc["body"]
+    ok = False
+    if not b[1] and b[2] is not None and b[2][0] == "call" and b[2][1][0] == "path" and b[2][1][1] == ["JmespathError", "new"]:
+        a = b[2][2]
+        ps = [p_ for p_, _ in fc["params"]]
+        if len(a) == 3 and len(ps) == 2 and a[0][0] == "field" and a[0][2] == "expression" and a[1][0] == "field" and \
+                a[1][2] == "offset" and a[1][1] == ("path", [ps[0]], a[1][1][2]) and a[2][0] == "path" and a[2][1] == [ps[1]]:
+            ok = True
+    if not ok:
+        raise TieError("fn JmespathError::from_ctx (errors.rs) is no longer `JmespathError::new(ctx.expression, ctx.offset, reason)`: "
+                       "the reading of `from_ctx` by `toExcept` is not justified")
+    R = g.register
+    acc = []
+    for n in ("as_array", "as_object", "as_string", "as_number", "as_boolean", "as_null", "as_expref",
+              "is_array", "is_object", "is_string", "is_number", "is_boolean", "is_null", "is_expref"):
+        acc.append(R(var, "Variable", n, n, "val", f"`Variable::{n}`"))
+    jfmt = R(var, "JmespathType", "fmt", "jmespath_type_fmt", "jtype", "`impl Display for JmespathType` (`fmt`): the text written")
+    is_valid = R(fun, "ArgumentType", "is_valid", "is_valid", "argt", "`ArgumentType::is_valid`")
+    afmt = R(fun, "ArgumentType", "fmt", "argument_type_fmt", "argt", "`impl Display for ArgumentType` (`fmt`): the text written")
+    varity = R(fun, "Signature", "validate_arity", "validate_arity", "sig", "`Signature::validate_arity`")
+    varg = R(fun, "Signature", "validate_arg", "validate_arg", "sig", "`Signature::validate_arg`")
+    validate = R(fun, "Signature", "validate", "validate", "sig", "`Signature::validate`")
+    feq = R(var, None, "float_eq", "float_eq", None, "`fn float_eq`", free_only=True)
+    veq = R(var, "Variable", "eq", "variable_eq", "val", "`impl PartialEq for Variable` (`eq`)")
+    vcmp = R(var, "Variable", "cmp", "variable_cmp", "val", "`impl Ord for Variable` (`cmp`)")
+    out = [VALID_HEADER]
+    out.append("/-! ### variable.rs: accessors -/")
+    for i in acc:
+        out += g.gen_group([i])
+    out.append("/-! ### variable.rs / functions.rs: the names of the types (`Display`) -/")
+    out += g.gen_group([jfmt])
+    out += g.gen_group([afmt])
+    out.append("/-! ### functions.rs: `ArgumentType::is_valid` -/")
+    out += g.gen_group([is_valid])
+    out.append("/-! ### functions.rs: `Signature::validate` -/")
+    out += g.gen_group([varity])
+    out += g.gen_group([varg])
+    out += g.gen_group([validate])
+    out.append("/-! ### variable.rs: equality and ordering of `Variable` -/")
+    out += g.gen_group([feq])
+    out += g.gen_group([veq])
+    out += g.gen_group([vcmp])
+    out.append(f"/-- SHA-256 over the tokens of the translated regions (informational) -/\n"
+               f"def sourceDigest : String := \"{ctx.digest.hexdigest()}\"")
+    out.append("end JmesVerif.Generated.ValidCode")
+    return "\n\n".join(out) + "\n"
+
+
 def write_if_changed(path, text):
     old = None
     if os.path.exists(path):
@@ -3129,6 +4586,7 @@ def main():
     try:
         text = generate()
         itext = generate_interp()
+        vtext = generate_valid()
     except TieError as e:
         sys.stderr.write(f"rs2lean.py: broken tie: {e}\n")
         sys.exit(1)
@@ -3137,6 +4595,7 @@ def main():
         sys.exit(1)
     write_if_changed(OUT, text)
     write_if_changed(os.environ.get("RS2LEAN_INTERP_OUT") or OUT_INTERP, itext)
+    write_if_changed(os.environ.get("RS2LEAN_VALID_OUT") or OUT_VALID, vtext)
 
 
 if __name__ == "__main__":
